@@ -2,7 +2,8 @@
 // with std:: containers as independent shadow oracles.
 //
 // One case = one operation history on one line:   <container> <params> : op;op;op
-//   al <N>   : [b.](push x | erase k | purge | clear | get k | set k x | hold k | idx k j | asg | cc | sasg)
+//   every header may end in the token `rel` (release build of the headers, see below):  `al 4 rel : ...`
+//   al <N>   : [b.](push x | pushn k x | erase k | purge | clear | get k | set k x | hold k | idx k j | asg | cc | sasg)
 //              two lists a (bare op) and b (prefix "b."); asg: target = other, cc: target constructed anew as a copy
 //              of the other list, sasg: target = target
 //   sl       : (a|b).(pb x | pf x | pop | clear | ia k x | dn k | asg a|b | cc | ccv | mb | me | m+ | mi x | mr)
@@ -14,14 +15,17 @@
 //   lru      : [b.](ins k v | ins1 k | touch k | find k | popf | popb | resize n | clear | asg | cc | sasg)   (two caches)
 // The answer line holds one observation per op, joined by ';' (an op outside its precondition — undefined
 // behaviour or a failing assert in C++ — is not executed and observed as "skip"; the model does the same).
+//
+// Build configurations.  The dune-common headers of this property change with three macros: NDEBUG (assert(), and
+// sllist.hh compiles a variable only without it), DUNE_CHECK_BOUNDS (bitsetvector.hh) and CHECK_RESERVEDVECTOR
+// (reservedvector.hh).  This translation unit is the configuration "all checks on" (asserts, bounds checks, size
+// checks); cxx_c11_rel.cc compiles the very same runners against the headers in the configuration "release" (NDEBUG,
+// no checks), with the library renamed to another namespace so that both live in one binary.  A header token `rel`
+// (`bv 65 rel : ...`, `sl rel : ...`) sends the history to the release build; the behaviour the property talks about
+// is the same in both, so the model ignores the token (it only validates it).
+#define DUNE_CHECK_BOUNDS 1
+#define CHECK_RESERVEDVECTOR 1
 #include <config.h>
-
-#include <bitset>
-#include <deque>
-#include <list>
-#include <map>
-#include <memory>
-#include <optional>
 
 #include <dune/common/arraylist.hh>
 #include <dune/common/bitsetvector.hh>
@@ -30,986 +34,27 @@
 #include <dune/common/reservedvector.hh>
 #include <dune/common/sllist.hh>
 
-#include "hcommon.hh"
+#include "c11_containers.hh"
 
-using namespace dv;
-
-namespace {
-
-struct Case {
-  std::vector<std::string> head;              // header tokens
-  std::vector<std::vector<std::string>> ops;  // tokenised ops
-  std::vector<std::string> raw;
-};
-
-Case parseCase(const std::string& line) {
-  Case c;
-  auto pos = line.find(" :");
-  std::string h = pos == std::string::npos ? line : line.substr(0, pos);
-  std::string rest = pos == std::string::npos ? "" : line.substr(pos + 2);
-  c.head = words(h);
-  if (!words(rest).empty())
-    for (auto& seg : split(rest, ';')) {
-      c.ops.push_back(words(seg));
-      c.raw.push_back(seg);
-    }
-  return c;
-}
-
-bool isInt(const std::string& s) {
-  if (s.empty()) return false;
-  size_t i = (s[0] == '-') ? 1 : 0;
-  if (i == s.size() || s.size() > 9) return false;
-  for (; i < s.size(); ++i)
-    if (s[i] < '0' || s[i] > '9') return false;
-  return true;
-}
-bool isNat(const std::string& s) { return isInt(s) && s[0] != '-'; }
-bool isBits(const std::string& s, size_t B) {
-  if (s.size() != B) return false;
-  for (char ch : s)
-    if (ch != '0' && ch != '1') return false;
-  return true;
-}
-bool isList(const std::string& s) {
-  if (s.size() < 2 || s.front() != '[' || s.back() != ']') return false;
-  if (s.size() == 2) return true;
-  for (auto& w : split(s.substr(1, s.size() - 2), ','))
-    if (!isInt(w)) return false;
-  return true;
-}
-
-// collects observations and the first oracle complaint
-struct Out {
-  std::vector<std::string> obs;
-  std::string fail;
-  long executed = 0;
-  size_t opIndex = 0;
-  std::string opText;
-  void complain(const std::string& what) {
-    if (fail.empty()) fail = "FAIL op#" + std::to_string(opIndex) + " '" + opText + "': " + what;
-  }
-  void check(bool cond, const std::string& what) {
-    if (!cond) complain(what);
-  }
-  Result result() const {
-    Result r;
-    r.impl = join(obs.begin(), obs.end(), ";");
-    if (!fail.empty()) r.oracle = fail;
-    else if (executed == 0) r.oracle = "ok trivial";
-    return r;
-  }
-};
-
-template <class C> std::string lst(const C& c) { return listStr(c); }
-
-// ================================================================================================
-// ArrayList
-// ================================================================================================
-template <int N>
-Result runAL(const Case& cs) {
-  using AL = Dune::ArrayList<int, N>;
-  constexpr int CS = N > 0 ? N : 1;
-  struct Held { typename AL::iterator it; long g; };
-  struct Side {
-    std::unique_ptr<AL> l = std::make_unique<AL>();
-    std::deque<int> sh;
-    std::vector<Held> held;
-    long erased = 0;  // elements erased from the front since the last clear
-  };
-  Side S[2];
-  Out out;
-  for (size_t oi = 0; oi < cs.ops.size(); ++oi) {
-    const auto& w = cs.ops[oi];
-    out.opIndex = oi; out.opText = cs.raw[oi];
-    std::string res = "-";
-    bool ok = false;
-    std::string op = w.empty() ? "" : w[0];
-    int t = 0;
-    if (op.size() > 2 && op[0] == 'b' && op[1] == '.') { t = 1; op = op.substr(2); }
-    Side& s = S[t];
-    Side& o = S[1 - t];
-    AL& a = *s.l;
-    std::deque<int>& sh = s.sh;
-    auto at = [&](long k) {  // begin()+k, built in three different ways
-      auto it = a.begin();
-      if (k % 3 == 1) for (long i = 0; i < k; ++i) ++it;
-      else if (k % 3 == 2) it = it + k;
-      else it += k;
-      return it;
-    };
-    if (op == "push" && w.size() == 2 && isInt(w[1])) {
-      ok = true;
-      int x = std::stoi(w[1]);
-      a.push_back(x);
-      sh.push_back(x);
-      stat("al_push");
-      if ((long)sh.size() > 1 && (s.erased + (long)sh.size() - 1) % CS == 0) stat("al_push_opens_chunk");
-    } else if (op == "erase" && w.size() == 2 && isNat(w[1]) && std::stol(w[1]) < (long)sh.size()) {
-      ok = true;
-      long k = std::stol(w[1]);
-      auto it = at(k);
-      it.eraseToHere();
-      sh.erase(sh.begin(), sh.begin() + k + 1);
-      s.erased += k + 1;
-      std::vector<Held> keep;
-      for (auto& h : s.held) if (h.g >= s.erased) keep.push_back(h);
-      s.held.swap(keep);
-      out.check(it == a.begin(), "iterator after eraseToHere is not begin()");
-      res = sh.empty() ? "E" : std::to_string(*it);
-      stat("al_erase");
-      if (sh.empty()) stat("al_erase_all");
-    } else if (op == "purge" && w.size() == 1) {
-      ok = true;
-      a.purge();
-      s.held.clear();
-      stat("al_purge");
-    } else if (op == "clear" && w.size() == 1) {
-      ok = true;
-      a.clear();
-      sh.clear();
-      s.held.clear();
-      s.erased = 0;
-      stat("al_clear");
-    } else if (op == "get" && w.size() == 2 && isNat(w[1]) && std::stol(w[1]) < (long)sh.size()) {
-      ok = true;
-      long k = std::stol(w[1]);
-      const AL& ca = a;
-      res = std::to_string(a[k]);
-      out.check(ca[k] == sh[k] && a[k] == sh[k], "operator[] gives " + res + " expected " + std::to_string(sh[k]));
-      stat("al_get");
-    } else if (op == "set" && w.size() == 3 && isNat(w[1]) && isInt(w[2]) && std::stol(w[1]) < (long)sh.size()) {
-      ok = true;
-      long k = std::stol(w[1]);
-      if (k % 2) a[k] = std::stoi(w[2]); else *at(k) = std::stoi(w[2]);   // through operator[] / through an iterator
-      sh[k] = std::stoi(w[2]);
-      stat("al_set");
-    } else if (op == "hold" && w.size() == 2 && isNat(w[1]) && std::stol(w[1]) <= (long)sh.size()) {
-      ok = true;
-      long k = std::stol(w[1]);
-      auto it = at(k);
-      s.held.push_back({it, s.erased + k});
-      res = k < (long)sh.size() ? std::to_string(*it) : "E";
-      out.check(it - a.begin() == k, "iterator difference wrong");
-      stat("al_hold");
-    } else if (op == "idx" && w.size() == 3 && isNat(w[1]) && isNat(w[2]) &&
-               std::stol(w[1]) + std::stol(w[2]) < (long)sh.size()) {
-      ok = true;
-      long k = std::stol(w[1]), j = std::stol(w[2]);
-      auto it = at(k);
-      res = std::to_string(it[j]);
-      typename AL::const_iterator cit = it;
-      out.check(it[j] == sh[k + j] && cit[j] == sh[k + j], "iterator[] wrong");
-      stat("al_idx");
-    } else if (op == "asg" && w.size() == 1) {
-      ok = true;
-      AL& ret = (a = *o.l);
-      out.check(&ret == &a, "operator= does not return *this");
-      sh = o.sh; s.erased = o.erased; s.held.clear();
-      stat("al_asg");
-    } else if (op == "cc" && w.size() == 1) {
-      ok = true;
-      s.l = std::make_unique<AL>(*o.l);
-      sh = o.sh; s.erased = o.erased; s.held.clear();
-      stat("al_cc");
-    } else if (op == "sasg" && w.size() == 1) {
-      ok = true;
-      AL& self = a;
-      a = self;            // held iterators stay valid
-      stat("al_sasg");
-    }
-    if (!ok) { out.obs.push_back("skip"); stat("al_skip"); continue; }
-    out.executed++;
-    // ---- observation + oracle (both lists, every time: an operation on one list must not show in the other) ----
-    std::string ob;
-    for (int si = 0; si < 2; ++si) {
-      Side& q = S[si];
-      AL& l = *q.l;
-      const AL& cl = l;
-      const std::string nm = si ? "b" : "a";
-      std::vector<int> seen;
-      for (auto it = l.begin(); it != l.end(); ++it) seen.push_back(*it);
-      std::vector<std::string> hv;
-      for (auto& h : q.held) {
-        long idx = h.g - q.erased;
-        if (idx == (long)q.sh.size()) {
-          hv.push_back("E");
-          out.check(h.it == l.end(), nm + ": held end iterator differs from end()");
-        } else {
-          int v = *h.it;
-          hv.push_back(std::to_string(v));
-          out.check(v == q.sh[idx], nm + ": held iterator now denotes " + std::to_string(v) + " expected " + std::to_string(q.sh[idx]));
-          out.check(h.it - l.begin() == idx, nm + ": held iterator distance to begin() wrong");
-        }
-      }
-      ob += (si ? " | " : "") + std::to_string(l.size()) + " " + lst(seen) + " " + lst(hv);
-      out.check(l.size() == q.sh.size(), nm + ".size() = " + std::to_string(l.size()) + " expected " + std::to_string(q.sh.size()));
-      out.check(seen.size() == q.sh.size() && std::equal(seen.begin(), seen.end(), q.sh.begin()),
-                nm + " iterates as " + lst(seen) + " expected " + lst(q.sh));
-      out.check((std::size_t)(l.end() - l.begin()) == q.sh.size(), nm + ": end()-begin() != size");
-      std::vector<int> cseen, rseen, crseen, iseen;
-      for (auto it = cl.begin(); it != cl.end(); ++it) cseen.push_back(*it);
-      out.check(cseen == seen, nm + ": const iteration differs");
-      for (auto it = l.end(); it != l.begin();) { --it; rseen.push_back(*it); }
-      std::reverse(rseen.begin(), rseen.end());
-      out.check(rseen == seen, nm + ": backward iteration differs");
-      // the const iterator's own decrement / advance / distanceTo / equals
-      for (auto it = cl.end(); it != cl.begin();) { --it; crseen.push_back(*it); }
-      std::reverse(crseen.begin(), crseen.end());
-      out.check(crseen == seen, nm + ": const backward iteration differs");
-      out.check((std::size_t)(cl.end() - cl.begin()) == q.sh.size(), nm + ": const end()-begin() != size");
-      {
-        typename AL::const_iterator ci = cl.begin();
-        typename AL::iterator mi = l.begin();
-        out.check(mi == ci && !(mi != ci), nm + ": begin() differs from const begin()");
-        long half = (long)q.sh.size() / 2;
-        ci += half; mi += half;
-        out.check(mi == ci && ci - cl.begin() == half, nm + ": const iterator advance/distance wrong");
-        if (half < (long)q.sh.size()) out.check(*ci == q.sh[half] && *mi == q.sh[half], nm + ": advanced iterator denotes the wrong element");
-        typename AL::const_iterator ce = l.end();   // conversion iterator -> const_iterator
-        out.check(ce == cl.end(), nm + ": converted end() differs from const end()");
-        if (!q.sh.empty()) {  // distinct positions compare unequal, in both mixed directions, and are ordered
-          out.check(l.begin() != cl.end() && !(l.begin() == cl.end()) && !(l.end() == cl.begin()) && cl.begin() != ce,
-                    nm + ": begin() compares equal to end()");
-          // the mixed equals() overload itself (the facade's operators route mixed comparisons through the const one)
-          out.check(!l.begin().equals(cl.end()) && !l.end().equals(cl.begin()) && l.end().equals(cl.end()) && l.begin().equals(cl.begin()),
-                    nm + ": iterator::equals(const_iterator) wrong");
-          out.check(cl.begin() < cl.end() && l.begin() < l.end() && !(cl.end() < cl.begin()) && cl.begin() - cl.end() == -(long)q.sh.size(),
-                    nm + ": iterator ordering / negative distance wrong");
-        }
-      }
-      if (l.size() == q.sh.size()) {
-        for (std::size_t i = 0; i < l.size(); ++i) iseen.push_back(cl[i]);
-        out.check(iseen.size() == q.sh.size() && std::equal(iseen.begin(), iseen.end(), q.sh.begin()), nm + ": operator[] sweep differs");
-      }
-      // a second instance with the same contents compares equal element by element
-      AL fresh;
-      for (int x : q.sh) fresh.push_back(x);
-      out.check(fresh.size() == l.size() && std::equal(fresh.begin(), fresh.end(), l.begin()), nm + " differs from a freshly built equal list");
-    }
-    out.obs.push_back(ob + " " + res);
-  }
-  stat("al_N" + std::to_string(N));
-  return out.result();
-}
-
-// ================================================================================================
-// SLList
-// ================================================================================================
-// std::allocator lost allocate(n, hint) in C++20, which SLList::push_front calls; this allocator provides it
-// and counts live elements, so the harness also sees leaked or doubly released nodes.
-inline long& slLive() { static long n = 0; return n; }
-template <class T>
-struct CountingAlloc {
-  using value_type = T;
-  using size_type = std::size_t;
-  using difference_type = std::ptrdiff_t;
-  CountingAlloc() = default;
-  template <class U> CountingAlloc(const CountingAlloc<U>&) {}
-  T* allocate(std::size_t n, const void* = nullptr) { slLive() += (long)n; return std::allocator<T>().allocate(n); }
-  void deallocate(T* p, std::size_t n) { slLive() -= (long)n; std::allocator<T>().deallocate(p, n); }
-  template <class U> bool operator==(const CountingAlloc<U>&) const { return true; }
-  template <class U> bool operator!=(const CountingAlloc<U>&) const { return false; }
-};
-using SLL = Dune::SLList<int, CountingAlloc<int>>;
-
-struct SLSide {
-  SLL l;
-  std::list<int> sh;
-  std::optional<SLL::ModifyIterator> m;
-  std::list<int>::iterator shm;
-  void drop() { m.reset(); }
-};
-
-Result runSL(const Case& cs) {
-  const long live0 = slLive();
-  SLSide S[2];
-  Out out;
-  for (size_t oi = 0; oi < cs.ops.size(); ++oi) {
-    const auto& w = cs.ops[oi];
-    out.opIndex = oi; out.opText = cs.raw[oi];
-    std::string res = "-";
-    bool ok = false;
-    std::string full = w.empty() ? "" : w[0];
-    int t = -1;
-    if (full.size() > 2 && full[1] == '.' && (full[0] == 'a' || full[0] == 'b')) t = full[0] - 'a';
-    std::string op = t >= 0 ? full.substr(2) : "";
-    if (t >= 0) {
-      SLSide& s = S[t];
-      SLSide& o = S[1 - t];
-      if (op == "pb" && w.size() == 2 && isInt(w[1])) {
-        ok = true; s.l.push_back(std::stoi(w[1])); s.sh.push_back(std::stoi(w[1])); s.drop(); stat("sl_pb");
-      } else if (op == "pf" && w.size() == 2 && isInt(w[1])) {
-        ok = true; s.l.push_front(std::stoi(w[1])); s.sh.push_front(std::stoi(w[1])); s.drop(); stat("sl_pf");
-      } else if (op == "pop" && w.size() == 1 && !s.sh.empty()) {
-        ok = true; s.l.pop_front(); s.sh.pop_front(); s.drop(); stat("sl_pop");
-        if (s.sh.empty()) stat("sl_pop_last");
-      } else if (op == "clear" && w.size() == 1) {
-        ok = true; s.l.clear(); s.sh.clear(); s.drop(); stat("sl_clear");
-      } else if (op == "ia" && w.size() == 3 && isNat(w[1]) && isInt(w[2]) && std::stol(w[1]) < (long)s.sh.size()) {
-        ok = true;
-        long k = std::stol(w[1]);
-        auto it = s.l.begin();
-        for (long i = 0; i < k; ++i) ++it;
-        it.insertAfter(std::stoi(w[2]));
-        auto sit = s.sh.begin();
-        std::advance(sit, k + 1);
-        s.sh.insert(sit, std::stoi(w[2]));
-        s.drop(); stat("sl_ia");
-        if (k + 2 == (long)s.sh.size()) stat("sl_ia_at_tail");
-      } else if (op == "dn" && w.size() == 2 && isNat(w[1]) && std::stol(w[1]) + 1 < (long)s.sh.size()) {
-        ok = true;
-        long k = std::stol(w[1]);
-        auto it = s.l.begin();
-        for (long i = 0; i < k; ++i) ++it;
-        it.deleteNext();
-        auto sit = s.sh.begin();
-        std::advance(sit, k + 1);
-        s.sh.erase(sit);
-        s.drop(); stat("sl_dn");
-        if (k + 1 == (long)s.sh.size()) stat("sl_dn_tail");
-      } else if (op == "asg" && w.size() == 2 && (w[1] == "a" || w[1] == "b")) {
-        ok = true;
-        int src = w[1][0] - 'a';
-        SLL& ret = (s.l = S[src].l);
-        out.check(&ret == &s.l, "operator= does not return *this");
-        if (src != t) s.sh = S[src].sh;
-        s.drop();
-        stat(src == t ? "sl_asg_self" : "sl_asg");
-      } else if (op == "cc" && w.size() == 1) {
-        ok = true;
-        SLL c(s.l);
-        std::vector<int> cv;
-        for (auto it = c.begin(); it != c.end(); ++it) cv.push_back(*it);
-        res = lst(cv) + (c == s.l ? "t" : "f");
-        out.check(cv.size() == s.sh.size() && std::equal(cv.begin(), cv.end(), s.sh.begin()), "copy shows " + lst(cv));
-        out.check(c == s.l && !(c != s.l), "copy does not compare equal");
-        out.check(c.size() == (int)s.sh.size() && c.empty() == s.sh.empty(), "copy size/empty wrong");
-        c.push_back(7);  // the copy is independent and its tail is right
-        out.check(c.size() == (int)s.sh.size() + 1 && (c != s.l), "copy not independent");
-        stat("sl_cc");
-      } else if (op == "ccv" && w.size() == 1) {
-        ok = true;
-        // converting copy constructor: other element type, other allocator type
-        Dune::SLList<long, CountingAlloc<long>> c(s.l);
-        std::vector<long> cv;
-        for (auto it = c.begin(); it != c.end(); ++it) cv.push_back(*it);
-        res = lst(cv) + std::to_string(c.size());
-        out.check(cv.size() == s.sh.size() && std::equal(cv.begin(), cv.end(), s.sh.begin()), "converting copy shows " + lst(cv));
-        out.check(c.size() == (int)s.sh.size() && c.empty() == s.sh.empty(), "converting copy size/empty wrong");
-        c.push_back(7);  // its tail is right
-        out.check(c.size() == (int)s.sh.size() + 1, "converting copy: push_back afterwards wrong");
-        long last = 0;
-        for (auto it = c.begin(); it != c.end(); ++it) last = *it;
-        out.check(last == 7, "converting copy: tail wrong");
-        stat("sl_ccv");
-      } else if (op == "mb" && w.size() == 1) {
-        ok = true; s.m = s.l.beginModify(); s.shm = s.sh.begin(); stat("sl_mb");
-      } else if (op == "me" && w.size() == 1) {
-        ok = true; s.m = s.l.endModify(); s.shm = s.sh.end(); stat("sl_me");
-      } else if (op == "m+" && w.size() == 1 && s.m && s.shm != s.sh.end()) {
-        ok = true; ++*s.m; ++s.shm; stat("sl_minc");
-      } else if (op == "mi" && w.size() == 2 && isInt(w[1]) && s.m) {
-        ok = true;
-        s.m->insert(std::stoi(w[1]));
-        s.sh.insert(s.shm, std::stoi(w[1]));
-        stat("sl_mi");
-        if (s.shm == s.sh.end()) stat("sl_mi_at_end");
-      } else if (op == "mr" && w.size() == 1 && s.m && s.shm != s.sh.end()) {
-        ok = true;
-        s.m->remove();
-        s.shm = s.sh.erase(s.shm);
-        stat("sl_mr");
-        if (s.shm == s.sh.end()) stat("sl_mr_last");
-      }
-      (void)o;
-    }
-    if (!ok) { out.obs.push_back("skip"); stat("sl_skip"); continue; }
-    out.executed++;
-    std::string ob;
-    for (int i = 0; i < 2; ++i) {
-      SLSide& s = S[i];
-      std::vector<int> seen;
-      for (auto it = s.l.begin(); it != s.l.end(); ++it) seen.push_back(*it);
-      const SLL& cl = s.l;
-      std::vector<int> cseen;
-      for (auto it = cl.begin(); it != cl.end(); ++it) cseen.push_back(*it);
-      std::string ms = "-";
-      if (s.m) {
-        bool atEnd = s.m->equals(s.l.end());
-        ms = atEnd ? "E" : std::to_string(**s.m);
-        out.check(atEnd == (s.shm == s.sh.end()), "modify iterator end state wrong");
-        if (!atEnd && s.shm != s.sh.end()) out.check(**s.m == *s.shm, "modify iterator denotes " + ms + " expected " + std::to_string(*s.shm));
-        // conversions ModifyIterator -> iterator / const_iterator
-        SLL::iterator pit(*s.m);
-        SLL::const_iterator cit(*s.m);
-        out.check((pit == s.l.end()) == atEnd && (cit == cl.end()) == atEnd && s.m->equals(pit) && s.m->equals(cit),
-                  "iterator converted from the modify iterator differs");
-        if (!atEnd) out.check(*pit == **s.m && *cit == **s.m, "converted iterator denotes another element");
-      }
-      {
-        SLL::const_iterator cb = s.l.begin();  // conversion iterator -> const_iterator
-        out.check(cb == cl.begin() && s.l.begin().equals(cb), "begin() converted to const_iterator differs from const begin()");
-      }
-      ob += std::string(i ? " b:" : "a:") + std::to_string(s.l.size()) + "," + (s.l.empty() ? "t" : "f") + "," + lst(seen) + "," + ms;
-      std::string nm = i ? "b" : "a";
-      out.check(s.l.size() == (int)s.sh.size(), nm + ".size() = " + std::to_string(s.l.size()) + " expected " + std::to_string(s.sh.size()));
-      out.check(s.l.empty() == s.sh.empty(), nm + ".empty() wrong");
-      out.check(seen.size() == s.sh.size() && std::equal(seen.begin(), seen.end(), s.sh.begin()),
-                nm + " iterates as " + lst(seen) + " expected " + lst(s.sh));
-      out.check(cseen == seen, nm + " const iteration differs");
-    }
-    bool e = S[0].l == S[1].l, n = S[0].l != S[1].l;
-    ob += std::string(" ") + (e ? "t" : "f") + (n ? "t" : "f") + " " + res;
-    out.check(e == (S[0].sh == S[1].sh), "operator== wrong");
-    out.check(n == (S[0].sh != S[1].sh), "operator!= wrong");
-    out.check((S[0].l == S[0].l) && !(S[1].l != S[1].l), "list differs from itself");
-    out.check(slLive() - live0 == (long)(S[0].sh.size() + S[1].sh.size()),
-              "allocated elements " + std::to_string(slLive() - live0) + " but the lists hold " + std::to_string(S[0].sh.size() + S[1].sh.size()));
-    out.obs.push_back(ob);
-  }
-  return out.result();
-}
-
-// ================================================================================================
-// ReservedVector
-// ================================================================================================
-template <int n>
-Result runRV(const Case& cs) {
-  using RV = Dune::ReservedVector<int, n>;
-  // shadow: std::vector (kept as optional<int>; never empty any more).  Slots uncovered by resize()/the count
-  // constructor are not initialised by ReservedVector, so the ops `resize k` / `ctorc k` of this protocol assign 0
-  // to every uncovered slot right away: no unspecified value is ever observed or compared.
-  struct Side { RV v; std::vector<std::optional<int>> sh; };
-  Side S[2];
-  Out out;
-  auto spec = [](const std::vector<std::optional<int>>& v) {
-    for (auto& x : v) if (!x) return false;
-    return true;
-  };
-  for (size_t oi = 0; oi < cs.ops.size(); ++oi) {
-    const auto& w = cs.ops[oi];
-    out.opIndex = oi; out.opText = cs.raw[oi];
-    std::string res = "-";
-    bool ok = false;
-    std::string full = w.empty() ? "" : w[0];
-    int t = -1;
-    if (full.size() > 2 && full[1] == '.' && (full[0] == 'a' || full[0] == 'b')) t = full[0] - 'a';
-    std::string op = t >= 0 ? full.substr(2) : "";
-    if (t >= 0) {
-      Side& s = S[t];
-      Side& o = S[1 - t];
-      if (op == "push" && w.size() == 2 && isInt(w[1]) && (int)s.sh.size() < n) {
-        ok = true;
-        const int x = std::stoi(w[1]);
-        if (x % 2) { s.v.push_back(x); stat("rv_push_lvalue"); }          // push_back(const value_type&)
-        else { s.v.push_back(std::stoi(w[1])); stat("rv_push_rvalue"); }  // push_back(value_type&&)
-        s.sh.push_back(x); stat("rv_push");
-        if ((int)s.sh.size() == n) stat("rv_full");
-      } else if (op == "emp" && w.size() == 2 && isInt(w[1]) && (int)s.sh.size() < n) {
-        ok = true;
-        int& r = s.v.emplace_back(std::stoi(w[1]));
-        s.sh.push_back(std::stoi(w[1]));
-        out.check(&r == &s.v.back(), "emplace_back does not return a reference to back()");
-        stat("rv_emp");
-      } else if (op == "pop" && w.size() == 1) {
-        ok = true; s.v.pop_back(); if (!s.sh.empty()) s.sh.pop_back(); else stat("rv_pop_empty"); stat("rv_pop");
-      } else if (op == "clear" && w.size() == 1) {
-        ok = true; s.v.clear(); s.sh.clear(); stat("rv_clear");
-      } else if (op == "resize" && w.size() == 2 && isNat(w[1]) && std::stol(w[1]) <= n) {
-        ok = true;
-        std::size_t old = s.sh.size(), k = std::stol(w[1]);
-        s.v.resize(k);
-        for (std::size_t i = old; i < k; ++i) s.v[i] = 0;  // uncovered slots are unspecified: define them
-        s.sh.resize(k, 0);
-        stat(k > old ? "rv_resize_grow" : "rv_resize");
-      } else if (op == "set" && w.size() == 3 && isNat(w[1]) && isInt(w[2]) && std::stol(w[1]) < (long)s.sh.size()) {
-        ok = true; s.v[std::stol(w[1])] = std::stoi(w[2]); s.sh[std::stol(w[1])] = std::stoi(w[2]); stat("rv_set");
-      } else if (op == "at" && w.size() == 2 && isNat(w[1])) {
-        ok = true;
-        long i = std::stol(w[1]);
-        const RV& cv = s.v;
-        try { res = std::to_string(s.v.at(i)); out.check(cv.at(i) == s.v.at(i), "const at differs"); }
-        catch (std::out_of_range&) { res = "ERR:Range"; }
-        out.check((res == "ERR:Range") == (i >= (long)s.sh.size()), "at(" + w[1] + ") range check wrong");
-        if (i < (long)s.sh.size() && s.sh[i]) out.check(res == std::to_string(*s.sh[i]), "at gives " + res);
-        stat(res == "ERR:Range" ? "rv_at_err" : "rv_at");
-      } else if (op == "fill" && w.size() == 2 && isInt(w[1])) {
-        ok = true; s.v.fill(std::stoi(w[1])); for (auto& x : s.sh) x = std::stoi(w[1]); stat("rv_fill");
-      } else if (op == "swap" && w.size() == 1) {
-        ok = true; s.v.swap(o.v); s.sh.swap(o.sh); stat("rv_swap");
-      } else if (op == "asg" && w.size() == 1) {
-        ok = true;
-        if (t == 0) { RV& ret = (s.v = o.v); out.check(&ret == &s.v, "operator= does not return *this"); }  // copy assignment
-        else { RV c(o.v); s.v = std::move(c); }                                                              // copy construction
-        s.sh = o.sh; stat("rv_asg");
-      } else if (op == "ctor" && w.size() == 1) {
-        ok = true; s.v = RV(); s.sh.clear(); stat("rv_ctor");
-      } else if (op == "ctorc" && w.size() == 2 && isNat(w[1]) && std::stol(w[1]) <= n) {
-        ok = true;
-        s.v = RV(std::stol(w[1]));
-        for (long i = 0; i < std::stol(w[1]); ++i) s.v[i] = 0;  // as for resize
-        s.sh.assign(std::stol(w[1]), 0);
-        stat("rv_ctorc");
-      } else if (op == "ctorv" && w.size() == 3 && isNat(w[1]) && isInt(w[2]) && std::stol(w[1]) <= n) {
-        ok = true; s.v = RV(std::stol(w[1]), std::stoi(w[2])); s.sh.assign(std::stol(w[1]), std::stoi(w[2])); stat("rv_ctorv");
-      } else if (op == "init" && w.size() == 2 && isList(w[1]) && (long)parseList(w[1]).size() <= n) {
-        ok = true;
-        auto l = parseList(w[1]);
-        std::vector<int> li(l.begin(), l.end());
-        // odd lengths up to 3 go through the std::initializer_list constructor, the rest through the iterator pair
-        if (li.size() == 1) { s.v = RV{li[0]}; stat("rv_init_ilist"); }
-        else if (li.size() == 3) { s.v = RV{li[0], li[1], li[2]}; stat("rv_init_ilist"); }
-        else s.v = RV(li.begin(), li.end());
-        s.sh.assign(li.begin(), li.end());
-        stat("rv_init");
-      }
-    }
-    if (!ok) { out.obs.push_back("skip"); stat("rv_skip"); continue; }
-    out.executed++;
-    std::string ob;
-    for (int i = 0; i < 2; ++i) {
-      Side& s = S[i];
-      std::string nm = i ? "b" : "a";
-      std::vector<int> seen(s.v.begin(), s.v.end());
-      const RV& cv = s.v;
-      std::vector<int> cseen(cv.begin(), cv.end()), rseen(s.v.rbegin(), s.v.rend()), ccseen(cv.cbegin(), cv.cend());
-      std::vector<int> crseen(cv.rbegin(), cv.rend()), ccrseen(cv.crbegin(), cv.crend());
-      std::reverse(rseen.begin(), rseen.end());
-      std::reverse(crseen.begin(), crseen.end());
-      std::reverse(ccrseen.begin(), ccrseen.end());
-      out.check(crseen == seen && ccrseen == seen, nm + " const reverse iteration differs");
-      out.check((std::size_t)(s.v.end() - s.v.begin()) == s.v.size() && (std::size_t)(cv.cend() - cv.cbegin()) == s.v.size(), nm + " end()-begin() != size()");
-      out.check(std::hash<RV>()(s.v) == hash_value(s.v), nm + " std::hash differs from hash_value");
-      std::string fr = s.v.empty() ? "-" : std::to_string(s.v.front());
-      std::string bk = s.v.empty() ? "-" : std::to_string(s.v.back());
-      ob += std::string(i ? " b:" : "a:") + std::to_string(s.v.size()) + "," + lst(seen) + "," + fr + "," + bk;
-      out.check(s.v.size() == s.sh.size(), nm + ".size() = " + std::to_string(s.v.size()) + " expected " + std::to_string(s.sh.size()));
-      out.check(s.v.empty() == s.sh.empty(), nm + ".empty() wrong");
-      out.check(s.v.capacity() == (std::size_t)n && s.v.max_size() == (std::size_t)n && s.v.size() <= (std::size_t)n, nm + " capacity wrong");
-      out.check(cseen == seen && rseen == seen && ccseen == seen, nm + " const/reverse iteration differs");
-      bool same = seen.size() == s.sh.size();
-      for (std::size_t j = 0; same && j < seen.size(); ++j) {
-        if (s.sh[j] && *s.sh[j] != seen[j]) same = false;
-        if (s.v[j] != seen[j] || cv[j] != seen[j] || s.v.data()[j] != seen[j] || cv.data()[j] != seen[j]) same = false;
-      }
-      out.check(same, nm + " shows " + lst(seen));
-      if (!s.sh.empty() && same) {
-        out.check(s.v.front() == seen.front() && s.v.back() == seen.back() && cv.front() == seen.front() && cv.back() == seen.back(),
-                  nm + " front/back wrong");
-      }
-    }
-    const RV &a = S[0].v, &b = S[1].v;
-    bool c[6] = {a < b, a <= b, a > b, a >= b, a == b, a != b};
-    std::string cmp;
-    for (bool x : c) cmp += x ? "t" : "f";
-    ob += " " + cmp + " " + res;
-    if (spec(S[0].sh) && spec(S[1].sh)) {
-      std::vector<int> x, y;
-      for (auto& e : S[0].sh) x.push_back(*e);
-      for (auto& e : S[1].sh) y.push_back(*e);
-      bool e[6] = {x < y, x <= y, x > y, x >= y, x == y, x != y};
-      for (int i = 0; i < 6; ++i) out.check(c[i] == e[i], std::string("comparison #") + std::to_string(i) + " (lt,le,gt,ge,eq,ne) wrong");
-      if (x == y) out.check(hash_value(a) == hash_value(b), "equal vectors hash differently");
-    }
-    out.obs.push_back(ob);
-  }
-  stat("rv_n" + std::to_string(n));
-  return out.result();
-}
-
-// ================================================================================================
-// BitSetVector
-// ================================================================================================
-template <int B>
-std::string bitsStr(const std::bitset<B>& b) {
-  std::string s;
-  for (int j = 0; j < B; ++j) s += b[j] ? '1' : '0';
-  return s;
-}
-template <int B>
-std::bitset<B> bitsOf(const std::string& s) {
-  std::bitset<B> b;
-  for (int j = 0; j < B; ++j) b[j] = s[j] == '1';
-  return b;
-}
-
-template <int B>
-Result runBV(const Case& cs) {
-  using BV = Dune::BitSetVector<B>;
-  using BS = std::bitset<B>;
-  BV v;
-  std::vector<BS> sh;
-  Out out;
-  for (size_t oi = 0; oi < cs.ops.size(); ++oi) {
-    const auto& w = cs.ops[oi];
-    out.opIndex = oi; out.opText = cs.raw[oi];
-    std::string res = "-";
-    bool ok = false;
-    const std::string op = w.empty() ? "" : w[0];
-    auto blk = [&](size_t i) { return w.size() > i && isNat(w[i]) && std::stol(w[i]) < (long)sh.size(); };
-    auto bit = [&](size_t i) { return w.size() > i && isNat(w[i]) && std::stol(w[i]) < B; };
-    auto flag = [&](size_t i) { return w.size() > i && (w[i] == "0" || w[i] == "1"); };
-    auto num = [&](size_t i) { return std::stol(w[i]); };
-    const BV& cv = v;
-    if (op == "new" && w.size() == 2 && isNat(w[1]) && num(1) <= 64) {
-      ok = true; v = BV((int)num(1)); sh.assign(num(1), BS()); stat("bv_new");
-    } else if (op == "newv" && w.size() == 3 && isNat(w[1]) && num(1) <= 64 && flag(2)) {
-      ok = true; v = BV((int)num(1), w[2] == "1"); sh.assign(num(1), w[2] == "1" ? ~BS() : BS()); stat("bv_newv");
-    } else if (op == "fromv" && w.size() == 2 && w[1].size() >= 1 && w[1].size() <= 301 && w[1][0] == 'b' &&
-               isBits(w[1].substr(1), w[1].size() - 1)) {
-      ok = true;
-      std::vector<bool> raw;
-      for (std::size_t j = 1; j < w[1].size(); ++j) raw.push_back(w[1][j] == '1');
-      try {
-        BV nv(raw);
-        if (raw.size() % B != 0) {
-          out.complain("BitSetVector(vector<bool>) accepted a size that is not a multiple of the block size");
-          res = "accepted";
-        } else {
-          v = nv;
-          sh.assign(raw.size() / B, BS());
-          for (std::size_t j = 0; j < raw.size(); ++j) sh[j / B][j % B] = raw[j];
-        }
-        stat("bv_fromv");
-      } catch (Dune::RangeError&) {
-        res = "ERR:Range";
-        out.check(raw.size() % B != 0, "BitSetVector(vector<bool>) threw for a multiple of the block size");
-        stat("bv_fromv_err");
-      }
-    } else if (op == "resize" && w.size() == 3 && isNat(w[1]) && num(1) <= 64 && flag(2)) {
-      ok = true; v.resize((int)num(1), w[2] == "1"); sh.resize(num(1), w[2] == "1" ? ~BS() : BS()); stat("bv_resize");
-    } else if (op == "clear" && w.size() == 1) {
-      ok = true; v.clear(); sh.clear(); stat("bv_clear");
-    } else if (op == "setall" && w.size() == 1) {
-      ok = true; v.setAll(); for (auto& b : sh) b.set(); stat("bv_setall");
-    } else if (op == "unsetall" && w.size() == 1) {
-      ok = true; v.unsetAll(); for (auto& b : sh) b.reset(); stat("bv_unsetall");
-    } else if (op == "set" && w.size() == 2 && blk(1)) {
-      ok = true; v[num(1)].set(); sh[num(1)].set(); stat("bv_set");
-    } else if (op == "reset" && w.size() == 2 && blk(1)) {
-      ok = true; v[num(1)].reset(); sh[num(1)].reset(); stat("bv_reset");
-    } else if (op == "flip" && w.size() == 2 && blk(1)) {
-      ok = true; v[num(1)].flip(); sh[num(1)].flip(); stat("bv_flip");
-    } else if (op == "set1" && w.size() == 4 && blk(1) && bit(2) && flag(3)) {
-      ok = true;
-      if (w[3] == "1" && num(2) % 3 == 1) v[num(1)].set(num(2));               // default argument
-      else if (w[3] == "1" && num(2) % 3 == 2) v[num(1)].set(num(2), 2);      // any non-zero int means true
-      else v[num(1)].set(num(2), w[3] == "1");
-      sh[num(1)].set(num(2), w[3] == "1"); stat("bv_set1");
-    } else if (op == "reset1" && w.size() == 3 && blk(1) && bit(2)) {
-      ok = true; v[num(1)].reset(num(2)); sh[num(1)].reset(num(2)); stat("bv_reset1");
-    } else if (op == "flip1" && w.size() == 3 && blk(1) && bit(2)) {
-      ok = true; v[num(1)].flip(num(2)); sh[num(1)].flip(num(2)); stat("bv_flip1");
-    } else if (op == "asgb" && w.size() == 3 && blk(1) && flag(2)) {
-      ok = true; v[num(1)] = (w[2] == "1"); sh[num(1)] = w[2] == "1" ? ~BS() : BS(); stat("bv_asgb");
-    } else if (op == "asgs" && w.size() == 3 && blk(1) && isBits(w[2], B)) {
-      ok = true;
-      if (num(1) % 2) {  // through the mutable iterator's proxy
-        auto it = v.begin();
-        for (long j = 0; j < num(1); ++j) ++it;
-        *it = bitsOf<B>(w[2]);
-        stat("bv_asgs_iter");
-      } else v[num(1)] = bitsOf<B>(w[2]);
-      sh[num(1)] = bitsOf<B>(w[2]); stat("bv_asgs");
-    } else if (op == "asgr" && w.size() == 3 && blk(1) && blk(2)) {
-      ok = true;
-      if (num(2) % 2) v[num(1)] = cv[num(2)]; else v[num(1)] = v[num(2)];
-      sh[num(1)] = sh[num(2)]; stat("bv_asgr");
-    } else if ((op == "and" || op == "or" || op == "xor") && w.size() == 3 && blk(1) && isBits(w[2], B)) {
-      ok = true;
-      BS x = bitsOf<B>(w[2]);
-      if (op == "and") { v[num(1)] &= x; sh[num(1)] &= x; }
-      else if (op == "or") { v[num(1)] |= x; sh[num(1)] |= x; }
-      else { v[num(1)] ^= x; sh[num(1)] ^= x; }
-      stat("bv_" + op);
-    } else if ((op == "andr" || op == "orr" || op == "xorr") && w.size() == 3 && blk(1) && blk(2)) {
-      ok = true;
-      BS x = sh[num(2)];
-      if (op == "andr") { v[num(1)] &= cv[num(2)]; sh[num(1)] &= x; }
-      else if (op == "orr") { v[num(1)] |= cv[num(2)]; sh[num(1)] |= x; }
-      else { v[num(1)] ^= cv[num(2)]; sh[num(1)] ^= x; }
-      stat("bv_" + op);
-    } else if ((op == "shl" || op == "shr") && w.size() == 3 && blk(1) && isNat(w[2]) && num(2) <= 200) {
-      ok = true;
-      if (op == "shl") { v[num(1)] <<= num(2); sh[num(1)] <<= num(2); }
-      else { v[num(1)] >>= num(2); sh[num(1)] >>= num(2); }
-      stat("bv_" + op);
-      if (num(2) >= B) stat("bv_shift_ge_B");
-    } else if (op == "q" && w.size() == 2 && blk(1)) {
-      ok = true;
-      auto r = cv[num(1)];
-      res = std::to_string(r.count()) + (r.any() ? "t" : "f") + (r.none() ? "t" : "f") + (r.all() ? "t" : "f");
-      const BS& e = sh[num(1)];
-      out.check(r.count() == e.count() && r.any() == e.any() && r.none() == e.none() && r.all() == e.all() && r.size() == (std::size_t)B,
-                "block count/any/none/all wrong: " + res);
-      auto mr = v[num(1)];
-      out.check(mr.count() == e.count() && mr.all() == e.all(), "mutable proxy count/all wrong");
-      stat("bv_q");
-    } else if (op == "not" && w.size() == 2 && blk(1)) {
-      ok = true; BS r = ~cv[num(1)]; res = bitsStr<B>(r); out.check(r == ~sh[num(1)], "operator~ wrong"); stat("bv_not");
-    } else if ((op == "shlq" || op == "shrq") && w.size() == 3 && blk(1) && isNat(w[2]) && num(2) <= 200) {
-      ok = true;
-      BS r = op == "shlq" ? (cv[num(1)] << num(2)) : (cv[num(1)] >> num(2));
-      BS e = op == "shlq" ? (sh[num(1)] << num(2)) : (sh[num(1)] >> num(2));
-      res = bitsStr<B>(r); out.check(r == e, op + " wrong"); stat("bv_" + op);
-    } else if (op == "eqs" && w.size() == 3 && blk(1) && isBits(w[2], B)) {
-      ok = true;
-      BS x = bitsOf<B>(w[2]);
-      bool e = cv[num(1)] == x, ne = cv[num(1)] != x;
-      res = std::string(e ? "t" : "f") + (ne ? "t" : "f");
-      out.check(e == (sh[num(1)] == x) && ne == !e, "proxy == bitset wrong"); stat("bv_eqs");
-    } else if (op == "eqr" && w.size() == 3 && blk(1) && blk(2)) {
-      ok = true;
-      bool e = cv[num(1)] == cv[num(2)], ne = cv[num(1)] != cv[num(2)];
-      res = std::string(e ? "t" : "f") + (ne ? "t" : "f");
-      out.check(e == (sh[num(1)] == sh[num(2)]) && ne == !e, "proxy == proxy wrong"); stat("bv_eqr");
-    } else if (op == "test" && w.size() == 3 && blk(1) && bit(2)) {
-      ok = true;
-      bool r = cv[num(1)].test(num(2));
-      res = r ? "t" : "f";
-      out.check(r == sh[num(1)].test(num(2)) && cv[num(1)][num(2)] == r && (bool)v[num(1)][num(2)] == r, "test/[] wrong"); stat("bv_test");
-    }
-    if (!ok) { out.obs.push_back("skip"); stat("bv_skip"); continue; }
-    out.executed++;
-    std::vector<std::string> blocks, cblocks;
-    for (auto it = v.begin(); it != v.end(); ++it) blocks.push_back(bitsStr<B>(BS(*it)));
-    for (auto it = cv.begin(); it != cv.end(); ++it) cblocks.push_back(bitsStr<B>(BS(*it)));
-    std::vector<std::size_t> masked;
-    for (int j = 0; j < B; ++j) masked.push_back(cv.countmasked(j));
-    out.obs.push_back(std::to_string(v.size()) + " " + std::to_string(v.count()) + " " + lst(blocks) + " " + lst(masked) + " " + res);
-    out.check(v.size() == sh.size(), "size " + std::to_string(v.size()) + " expected " + std::to_string(sh.size()));
-    bool same = blocks.size() == sh.size();
-    std::size_t total = 0;
-    for (std::size_t i = 0; same && i < sh.size(); ++i) { same = blocks[i] == bitsStr<B>(sh[i]); total += sh[i].count(); }
-    out.check(same, "blocks are " + lst(blocks));
-    out.check(cblocks == blocks, "const iteration differs");
-    if (same) {
-      out.check(v.count() == total, "count() wrong");
-      for (int j = 0; j < B; ++j) {
-        std::size_t e = 0;
-        for (auto& b : sh) e += b[j];
-        out.check(masked[j] == e, "countmasked wrong");
-      }
-      if (!sh.empty()) out.check(BS(v.back()) == sh.back() && BS(cv.back()) == sh.back(), "back() wrong");
-      // a copy is an equal, independent second instance
-      BV c(v);
-      bool eq = c.size() == v.size();
-      for (std::size_t i = 0; eq && i < sh.size(); ++i) eq = (cv[i] == c[i]) && !(cv[i] != c[i]) && (c[i] == sh[i]);
-      out.check(eq, "copy differs");
-      if (!sh.empty()) { c[0].flip(); out.check(BS(cv[0]) == sh[0] && cv[0] != c[0], "copy not independent"); }
-    }
-  }
-  stat("bv_B" + std::to_string(B));
-  return out.result();
-}
-
-// ================================================================================================
-// lru
-// ================================================================================================
-// const access: the read-only front()/back()/find() overloads.  back() const exists in two spellings in the wild
-// (`back() const` and the historical `back(int) const`); both mean the same, so either is accepted.
-template <class L>
-int lruConstBack(const L& c) {
-  if constexpr (requires { c.back(); }) return c.back();
-  else return c.back(0);
-}
-
-Result runLRU(const Case& cs) {
-  using L = Dune::lru<int, int>;
-  struct Side {
-    std::unique_ptr<L> c = std::make_unique<L>();
-    std::list<std::pair<int, int>> sh;  // recency order, most recent first
-    std::map<int, int> shm;             // key -> value
-  };
-  Side S[2];
-  Out out;
-  const int KEYS = 8;
-  for (size_t oi = 0; oi < cs.ops.size(); ++oi) {
-    const auto& w = cs.ops[oi];
-    out.opIndex = oi; out.opText = cs.raw[oi];
-    std::string res = "-";
-    bool ok = false;
-    std::string op = w.empty() ? "" : w[0];
-    int t = 0;
-    if (op.size() > 2 && op[0] == 'b' && op[1] == '.') { t = 1; op = op.substr(2); }
-    Side& s = S[t];
-    Side& o = S[1 - t];
-    L& c = *s.c;
-    auto& sh = s.sh;
-    auto& shm = s.shm;
-    auto shErase = [&](int k) {
-      for (auto it = sh.begin(); it != sh.end();) it = (it->first == k) ? sh.erase(it) : std::next(it);
-    };
-    auto key = [&](size_t i) { return w.size() > i && isNat(w[i]) && std::stol(w[i]) < 1000; };
-    if (op == "ins" && w.size() == 3 && key(1) && isInt(w[2])) {
-      ok = true;
-      int k = std::stoi(w[1]), v = std::stoi(w[2]);
-      bool present = shm.count(k);
-      int& r = c.insert(k, v);
-      res = std::to_string(r);
-      shErase(k); sh.push_front({k, v}); shm[k] = v;
-      out.check(&r == &c.front(), "insert does not return a reference to the front entry");
-      stat(present ? "lru_ins_existing" : "lru_ins_new");
-    } else if ((op == "touch" || op == "ins1") && w.size() == 2 && key(1)) {
-      ok = true;
-      int k = std::stoi(w[1]);
-      bool present = shm.count(k);
-      try {
-        int& r = op == "touch" ? c.touch(k) : c.insert(k);
-        res = std::to_string(r);
-        out.check(present, "touch of an absent key did not throw");
-        if (present) {
-          out.check(r == shm[k], "touch returned " + res + " expected " + std::to_string(shm[k]));
-          out.check(&r == &c.front(), "touch does not return a reference to the front entry");
-          shErase(k); sh.push_front({k, shm[k]});
-        }
-      } catch (Dune::RangeError&) {
-        res = "ERR:Range";
-        out.check(!present, "touch of a present key threw");
-      }
-      stat(present ? "lru_touch_hit" : "lru_touch_miss");
-    } else if (op == "find" && w.size() == 2 && key(1)) {
-      ok = true;
-      int k = std::stoi(w[1]);
-      auto it = c.find(k);
-      bool found = it != c.find(-1);
-      res = found ? std::to_string(it->first) + ":" + std::to_string(it->second) : "E";
-      stat(found ? "lru_find_hit" : "lru_find_miss");
-    } else if (op == "popf" && w.size() == 1 && !sh.empty()) {
-      ok = true; c.pop_front(); shm.erase(sh.front().first); sh.pop_front(); stat("lru_popf");
-    } else if (op == "popb" && w.size() == 1 && !sh.empty()) {
-      ok = true; c.pop_back(); shm.erase(sh.back().first); sh.pop_back(); stat("lru_popb");
-    } else if (op == "resize" && w.size() == 2 && isNat(w[1]) && std::stol(w[1]) <= (long)sh.size()) {
-      ok = true;
-      c.resize(std::stol(w[1]));
-      while ((long)sh.size() > std::stol(w[1])) { shm.erase(sh.back().first); sh.pop_back(); }
-      stat("lru_resize");
-    } else if (op == "clear" && w.size() == 1) {
-      ok = true; c.clear(); sh.clear(); shm.clear(); stat("lru_clear");
-    } else if (op == "asg" && w.size() == 1) {
-      ok = true;
-      L& ret = (c = *o.c);
-      out.check(&ret == &c, "operator= does not return *this");
-      sh = o.sh; shm = o.shm; stat("lru_asg");
-    } else if (op == "cc" && w.size() == 1) {
-      ok = true;
-      s.c = std::make_unique<L>(*o.c);
-      sh = o.sh; shm = o.shm; stat("lru_cc");
-    } else if (op == "sasg" && w.size() == 1) {
-      ok = true;
-      L& self = c;
-      c = self;
-      stat("lru_sasg");
-    }
-    if (!ok) { out.obs.push_back("skip"); stat("lru_skip"); continue; }
-    out.executed++;
-    std::string ob;
-    for (int si = 0; si < 2; ++si) {
-      Side& q = S[si];
-      L& l = *q.c;
-      const L& cl = l;
-      const std::string nm = si ? "b" : "a";
-      // full iteration: walk back size() steps from end() (= find of a key that is never inserted)
-      std::vector<std::string> seen;
-      std::vector<std::pair<int, int>> seenp, cseenp;
-      {
-        auto it = l.find(-1);
-        for (std::size_t i = 0; i < l.size(); ++i) { --it; seenp.push_back(*it); }
-        std::reverse(seenp.begin(), seenp.end());
-        for (auto& p : seenp) seen.push_back(std::to_string(p.first) + ":" + std::to_string(p.second));
-        auto cit = cl.find(-1);   // the const overload
-        for (std::size_t i = 0; i < cl.size(); ++i) { --cit; cseenp.push_back(*cit); }
-        std::reverse(cseenp.begin(), cseenp.end());
-        out.check(cseenp == seenp, nm + ": const iteration differs");
-      }
-      std::vector<std::string> finds;
-      for (int k = 0; k < KEYS; ++k) {
-        auto it = l.find(k);
-        bool found = it != l.find(-1);
-        auto cit = cl.find(k);
-        bool cfound = cit != cl.find(-1);
-        finds.push_back(found ? std::to_string(it->second) : "-");
-        auto e = q.shm.find(k);
-        out.check(found == (e != q.shm.end()), nm + ".find(" + std::to_string(k) + ") presence wrong");
-        out.check(cfound == found && (!found || (cit->first == it->first && cit->second == it->second)), nm + ": const find(" + std::to_string(k) + ") differs");
-        if (found && e != q.shm.end()) {
-          out.check(it->first == k, nm + ".find(" + std::to_string(k) + ") yields key " + std::to_string(it->first));
-          out.check(it->second == e->second, nm + ".find(" + std::to_string(k) + ") = " + std::to_string(it->second) + " expected " + std::to_string(e->second));
-        }
-      }
-      std::string fr = l.size() ? std::to_string(l.front()) : "-";
-      std::string bk = l.size() ? std::to_string(l.back()) : "-";
-      ob += (si ? " | " : "") + std::to_string(l.size()) + " " + fr + " " + bk + " " + lst(seen) + " " + lst(finds);
-      out.check(l.size() == q.sh.size() && q.sh.size() == q.shm.size(), nm + ".size() = " + std::to_string(l.size()) + " expected " + std::to_string(q.shm.size()));
-      out.check(seenp.size() == q.sh.size() && std::equal(seenp.begin(), seenp.end(), q.sh.begin()), nm + ": recency order is " + lst(seen));
-      if (!q.sh.empty() && l.size()) {
-        out.check(l.front() == q.sh.front().second && l.back() == q.sh.back().second, nm + ": front/back wrong");
-        out.check(cl.front() == q.sh.front().second && lruConstBack(cl) == q.sh.back().second, nm + ": const front/back wrong");
-      }
-      // a second instance filled with the same entries (oldest first) shows the same order
-      {
-        L d;
-        for (auto it = q.sh.rbegin(); it != q.sh.rend(); ++it) d.insert(it->first, it->second);
-        bool eq = d.size() == l.size();
-        auto i1 = l.find(-1);
-        auto i2 = d.find(-1);
-        for (std::size_t i = 0; eq && i < l.size(); ++i) { --i1; --i2; eq = *i1 == *i2; }
-        out.check(eq, nm + " differs from a freshly built equal cache");
-      }
-    }
-    if (op == "find") {
-      int k = std::stoi(w[1]);
-      auto e = shm.find(k);
-      out.check((res == "E") == (e == shm.end()), "find result presence wrong");
-      if (e != shm.end()) out.check(res == std::to_string(k) + ":" + std::to_string(e->second), "find result " + res);
-    }
-    out.obs.push_back(ob + " " + res);
-  }
-  return out.result();
-}
-
-}  // namespace
+// the same histories against the release configuration (cxx_c11_rel.cc)
+dv::Result c11_exec_rel(const std::string& line);
 
 Result exec(const std::string& line) {
-  Case cs = parseCase(line);
-  if (cs.head.empty()) return Result{"bad-op", "FAIL malformed line"};
-  const std::string& kind = cs.head[0];
-  long p = cs.head.size() > 1 && isInt(cs.head[1]) ? std::stol(cs.head[1]) : -999;
-  stat("hist_len_" + std::to_string(cs.ops.size() < 8 ? cs.ops.size() : cs.ops.size() < 16 ? 8 : cs.ops.size() < 32 ? 16 : 32) + "+");
-  if (kind == "al" && cs.head.size() == 2) {
-    switch (p) {
-      case 1: return runAL<1>(cs);
-      case 2: return runAL<2>(cs);
-      case 3: return runAL<3>(cs);
-      case 4: return runAL<4>(cs);
-      case 7: return runAL<7>(cs);
-      case 0: return runAL<0>(cs);  // chunkSize_ = 1
-    }
-  }
-  if (kind == "sl" && cs.head.size() == 1) return runSL(cs);
-  if (kind == "rv" && cs.head.size() == 2) {
-    switch (p) {
-      case 1: return runRV<1>(cs);
-      case 2: return runRV<2>(cs);
-      case 4: return runRV<4>(cs);
-      case 7: return runRV<7>(cs);
-    }
-  }
-  if (kind == "bv" && cs.head.size() == 2) {
-    switch (p) {
-      case 1: return runBV<1>(cs);
-      case 3: return runBV<3>(cs);
-      case 8: return runBV<8>(cs);
-      case 33: return runBV<33>(cs);
-    }
-  }
-  if (kind == "lru" && cs.head.size() == 1) return runLRU(cs);
-  return Result{"bad-op", "FAIL harness does not know container/parameter '" + line.substr(0, 20) + "'"};
+  if (c11HasRel(line)) { stat("cfg_release"); return c11_exec_rel(line); }
+  stat("cfg_checked");
+  return execContainers(line);
 }
 
 // ---- generators -------------------------------------------------------------------------------
 namespace {
+
+// a third of the histories run against the release build of the headers
+std::string cfgTok(Rng& r, const Args& a) {
+  std::string c = a.gets("cfg", "");
+  if (c == "rel") return " rel";
+  if (c == "chk") return "";
+  return r.coin(1, 3) ? " rel" : "";
+}
 
 long histLen(Rng& r, const Args& a) {
   long mx = a.get("maxlen", a.tier == "thorough" ? 60 : 40);
@@ -1022,7 +67,7 @@ long histLen(Rng& r, const Args& a) {
 int val(Rng& r) { return r.coin(1, 10) ? (int)r.range(-3, 3) : (int)r.range(0, 99); }
 
 std::string genAL(Rng& r, const Args& a) {
-  static const std::vector<int> NS = {1, 2, 3, 7, 2, 3, 4, 0};
+  static const std::vector<int> NS = {1, 2, 3, 7, 2, 3, 4, 0, 1, 2, 3, 4, 8, 16, 100};
   int Nt = r.pick(NS);
   int N = Nt > 0 ? Nt : 1;
   long len = histLen(r, a);
@@ -1048,10 +93,28 @@ std::string genAL(Rng& r, const Args& a) {
       os << T << r.pick(bad) << " " << (size + r.range(1, 2));
     } else if (c < 45 || (size == 0 && c < 70)) {
       int burst = r.coin(1, 5) ? (int)r.range(1, 2 * N) : 1;  // fill across a chunk boundary
-      for (int b = 0; b < burst; ++b) {
-        if (b) { ops.push_back(os.str()); os.str(""); }
-        os << T << "push " << (r.coin(3, 4) ? ctr++ : val(r));
-        ++size;
+      if (N >= 8 && r.coin(1, 2)) {
+        // large chunks: one op appends up to (and around) the next chunk boundary or across two chunks
+        long toEnd = N - ((start + size) % N);  // appends that fill the current chunk exactly
+        long k;
+        switch (r.below(5)) {
+          case 0: k = toEnd; break;
+          case 1: k = toEnd + 1; break;
+          case 2: k = toEnd > 1 ? toEnd - 1 : 1; break;
+          case 3: k = toEnd + N; break;
+          default: k = r.range(1, 2 * N); break;
+        }
+        if (k > 300) k = 300;
+        if (size + k > 700) k = 1;
+        os << T << "pushn " << k << " " << ctr;
+        ctr += (int)k; size += k;
+      } else {
+        if (burst > 8) burst = 8;
+        for (int b = 0; b < burst; ++b) {
+          if (b) { ops.push_back(os.str()); os.str(""); }
+          os << T << "push " << (r.coin(3, 4) ? ctr++ : val(r));
+          ++size;
+        }
       }
     } else if (c < 60 && size > 0) {
       long k;
@@ -1088,7 +151,7 @@ std::string genAL(Rng& r, const Args& a) {
     }
     ops.push_back(os.str());
   }
-  return "al " + std::to_string(Nt) + " : " + join(ops.begin(), ops.end(), ";");
+  return "al " + std::to_string(Nt) + cfgTok(r, a) + " : " + join(ops.begin(), ops.end(), ";");
 }
 
 std::string genSL(Rng& r, const Args& a) {
@@ -1135,12 +198,14 @@ std::string genSL(Rng& r, const Args& a) {
     else { os << T << "pb " << ctr++; ++n; mlive[t] = false; }
     ops.push_back(os.str());
   }
-  return "sl : " + join(ops.begin(), ops.end(), ";");
+  return "sl" + cfgTok(r, a) + " : " + join(ops.begin(), ops.end(), ";");
 }
 
 std::string genRV(Rng& r, const Args& a) {
-  static const std::vector<int> NS = {1, 2, 4, 7, 4, 1};
+  static const std::vector<int> NS = {1, 2, 4, 7, 4, 1, 2, 7, 16, 65};
   int n = r.pick(NS);
+  // sizes: anywhere, or at / next to the capacity
+  auto sizeArg = [&]() -> long { return r.coin(1, 4) ? (r.coin() ? n : n - 1) : r.range(0, n); };
   long len = histLen(r, a);
   long size[2] = {0, 0};
   std::vector<std::string> ops;
@@ -1155,40 +220,64 @@ std::string genRV(Rng& r, const Args& a) {
     else if (c < 30 && s < n) { os << T << (r.coin(1, 4) ? "emp " : "push ") << v; ++s; }
     else if (c < 42) { os << T << "pop"; if (s) --s; }
     else if (c < 45) { os << T << "clear"; s = 0; }
-    else if (c < 55) { long k = r.range(0, n); os << T << "resize " << k; s = k; }
+    else if (c < 55) { long k = sizeArg(); os << T << "resize " << k; s = k; }
     else if (c < 63 && s > 0) { os << T << "set " << r.below(s) << " " << v; }
     else if (c < 70) { os << T << "at " << (s > 0 && r.coin() ? (long)r.below(s) : r.range(0, n + 1)); }
     else if (c < 74) { os << T << "fill " << v; }
     else if (c < 77) { os << T << "swap"; std::swap(size[0], size[1]); }
     else if (c < 80) { os << T << "asg"; s = size[1 - t]; }
     else if (c < 82) { os << T << "ctor"; s = 0; }
-    else if (c < 85) { long k = r.range(0, n); os << T << "ctorc " << k; s = k; }
-    else if (c < 90) { long k = r.range(0, n); os << T << "ctorv " << k << " " << v; s = k; }
+    else if (c < 85) { long k = sizeArg(); os << T << "ctorc " << k; s = k; }
+    else if (c < 90) { long k = sizeArg(); os << T << "ctorv " << k << " " << v; s = k; }
     else {
-      long k = r.range(0, n);
+      long k = sizeArg();
       std::vector<int> l;
       for (long j = 0; j < k; ++j) l.push_back((int)r.range(0, 3));
       os << T << "init " << listStr(l); s = k;
     }
     ops.push_back(os.str());
   }
-  return "rv " + std::to_string(n) + " : " + join(ops.begin(), ops.end(), ";");
+  return "rv " + std::to_string(n) + cfgTok(r, a) + " : " + join(ops.begin(), ops.end(), ";");
 }
 
 std::string genBV(Rng& r, const Args& a) {
-  static const std::vector<int> BS = {1, 3, 8, 3, 8, 33};
-  int B = r.pick(BS);
+  // block sizes on both sides of the word boundaries of std::bitset's storage (see execContainers)
+  static const std::vector<int> BS = {1, 3, 8, 3, 8, 33, 32, 63, 64, 65, 65, 100, 128, 129};
+  int B = (int)a.get("B", r.pick(BS));
   long len = histLen(r, a);
+  if (B >= 100 && len > 16) len = 8 + len % 9;  // every op is followed by a full observation costing ~20 B bit reads per block
+
   long n = 0;
   std::vector<std::string> ops;
+  // bit positions: anywhere, or next to a storage word boundary / the ends of the block
+  auto bitPos = [&]() -> long {
+    static const std::vector<long> edge = {0, 31, 32, 63, 64, 65, 127, 128};
+    if (r.coin(1, 3)) {
+      long e = r.coin(1, 4) ? (long)B - 1 : r.pick(edge);
+      if (e < B) return e;
+    }
+    return (long)r.below(B);
+  };
   auto bits = [&]() {
     std::string s;
-    int style = (int)r.below(4);
-    for (int j = 0; j < B; ++j) s += style == 0 ? '0' : style == 1 ? '1' : (r.coin() ? '1' : '0');
+    int style = (int)r.below(7);
+    long one = bitPos();
+    for (int j = 0; j < B; ++j) {
+      char ch;
+      switch (style) {
+        case 0: ch = '0'; break;
+        case 1: ch = '1'; break;
+        case 2: ch = j == one ? '1' : '0'; break;          // one bit, often at a word boundary
+        case 3: ch = j >= 64 ? '1' : '0'; break;           // only the part beyond the first word
+        case 4: ch = j < 64 ? '1' : '0'; break;            // only the first word
+        default: ch = r.coin() ? '1' : '0'; break;
+      }
+      s += ch;
+    }
     return s;
   };
   auto shiftBy = [&]() -> long {
-    switch (r.below(5)) { case 0: return 0; case 1: return 1; case 2: return B - 1; case 3: return B + (long)r.below(3); default: return (long)r.below(B + 1); }
+    switch (r.below(6)) { case 0: return 0; case 1: return 1; case 2: return B - 1; case 3: return B + (long)r.below(3); case 4: return bitPos() + (long)r.below(2); default: return (long)r.below(B + 1); }
   };
   for (long i = 0; i < len; ++i) {
     std::ostringstream os;
@@ -1223,8 +312,8 @@ std::string genBV(Rng& r, const Args& a) {
       if (k == "clear") n = 0;
       else if (k == "setall" || k == "unsetall") {}
       else if (k == "set" || k == "reset" || k == "flip" || k == "q" || k == "not") os << " " << b;
-      else if (k == "set1") os << " " << b << " " << r.below(B) << " " << r.below(2);
-      else if (k == "reset1" || k == "flip1" || k == "test") os << " " << b << " " << r.below(B);
+      else if (k == "set1") os << " " << b << " " << bitPos() << " " << r.below(2);
+      else if (k == "reset1" || k == "flip1" || k == "test") os << " " << b << " " << bitPos();
       else if (k == "asgb") os << " " << b << " " << r.below(2);
       else if (k == "asgs" || k == "and" || k == "or" || k == "xor" || k == "eqs") os << " " << b << " " << bits();
       else if (k == "asgr" || k == "andr" || k == "orr" || k == "xorr" || k == "eqr") os << " " << b << " " << b2;
@@ -1232,7 +321,7 @@ std::string genBV(Rng& r, const Args& a) {
     }
     ops.push_back(os.str());
   }
-  return "bv " + std::to_string(B) + " : " + join(ops.begin(), ops.end(), ";");
+  return "bv " + std::to_string(B) + cfgTok(r, a) + " : " + join(ops.begin(), ops.end(), ";");
 }
 
 std::string genLRU(Rng& r, const Args& a) {
@@ -1268,15 +357,27 @@ std::string genLRU(Rng& r, const Args& a) {
     else { os << T << "clear"; present.clear(); }
     ops.push_back(os.str());
   }
-  return "lru : " + join(ops.begin(), ops.end(), ";");
+  return "lru" + cfgTok(r, a) + " : " + join(ops.begin(), ops.end(), ";");
 }
 
 // exhaustive enumeration of short histories over a small alphabet (thorough tier): case i = i-th word
 std::string genEnum(const std::string& kind, long i) {
   std::vector<std::string> alpha;
+  std::vector<std::string> prefix;  // fixed ops in front of the enumerated word
   std::string head;
   long len;
-  if (kind == "al1" || kind == "al2" || kind == "al3") {
+  if (kind == "bv65" || kind == "bv129r") {
+    // block sizes beyond one / two storage words of std::bitset: every word over bit writes at the word boundary,
+    // shifts by and across a word, and the operations that go through the conversion to std::bitset
+    const bool big = kind == "bv129r";
+    head = big ? "bv 129 rel" : "bv 65";
+    const std::string top = big ? "128" : "64";
+    const std::string mask = big ? std::string(64, '0') + std::string(65, '1') : std::string(64, '0') + "1";
+    prefix = {"newv 2 0", "set1 1 0 1"};
+    alpha = {"set1 0 " + top + " 1", "flip1 0 63", "shl 0 1", "shr 0 1", "shl 0 64", "shr 0 64", "flip 0", "asgr 1 0",
+             "xorr 0 1", "andr 0 1", "or 0 " + mask, "shr 0 " + top};
+    len = big ? 3 : 4;
+  } else if (kind == "al1" || kind == "al2" || kind == "al3") {
     head = "al " + kind.substr(2);
     alpha = {"push #", "erase 0", "erase 1", "purge", "hold 1", "erase 2", "clear"};
     len = 6;
@@ -1299,7 +400,7 @@ std::string genEnum(const std::string& kind, long i) {
   }
   long A = alpha.size();
   // words of length exactly len (shorter ones are prefixes and are observed op by op anyway)
-  std::vector<std::string> ops;
+  std::vector<std::string> ops = prefix;
   long x = i;
   for (long j = 0; j < len; ++j) {
     std::string o = alpha[x % A];
